@@ -184,7 +184,8 @@ Check (C03_monitor_delivered :
 Check (C03_monitor_frame :
   forall (W : world) (st : pstate) (from : addr) (wire : list N) (ob : observation),
   mon_decode W st from wire ob = true -> auth_check W st from wire = AuthNone ->
-  ob_ok ob = None /\ ob_changed ob = [] /\ ob_ident_changed ob = false /\ ob_added ob = O).
+  ob_ok ob = None /\ ob_changed ob = [] /\ ob_ident_changed ob = false /\ ob_added ob = O /\
+  ob_gstore_changed ob = false).
 
 Check (C03_monitor_sound :
   forall (W : world) (st : pstate) (from : addr) (wire : list N) (ob : observation) (b : bool)
